@@ -38,11 +38,16 @@ func (stubRuntime) GrandpaSubmitReportEquivocationUnsignedExtrinsic(types.Grandp
 	return nil
 }
 
-func edKey(seed int) *ed25519.Keypair {
+func edSeed(seed int) []byte {
 	s := make([]byte, 32)
 	for i := range s {
 		s[i] = byte(seed*7 + i*3 + 1)
 	}
+	return s
+}
+
+func edKey(seed int) *ed25519.Keypair {
+	s := edSeed(seed)
 	kp, err := ed25519.NewKeypairFromSeed(s)
 	if err != nil {
 		panic(err)
@@ -102,6 +107,8 @@ type gnode struct {
 	lastEst      *cu.RefBlock // model: estimate of the round the node left last (nil: none)
 	lastEstRound uint64
 	amnesiac     bool // signed two different votes in one round after a restart wiped its memory
+	restarted    bool
+	excusedRound uint64 // highest round this voter had signed a vote in when it was last restarted
 	// real round driver mode (real.go)
 	outMu    sync.Mutex
 	outbox   []outMsg
@@ -122,19 +129,7 @@ type outMsg struct {
 // second, different vote for the same round: from then on it is an equivocator, not an honest
 // voter in the sense of C22, and counts against the less-than-a-third budget.
 func (n *gnode) recordOwnVote(stage int, v *gp.Vote) {
-	if n.signed == nil {
-		n.signed = map[[3]uint64]common.Hash{}
-	}
-	key := [3]uint64{n.svc.VerifSetID(), n.svc.VerifRound(), uint64(stage)}
-	if old, ok := n.signed[key]; ok && old != v.Hash {
-		if !n.amnesiac {
-			n.s.k.Probe("restarted-voter-signed-second-vote-in-round")
-			n.s.k.Event("amnesiac", "n%d round=%d stage=%d %s then %s", n.id, key[1], stage, cu.Short(old), cu.Short(v.Hash))
-		}
-		n.amnesiac = true
-		return
-	}
-	n.signed[key] = v.Hash
+	n.recordOwnVoteAt(n.svc.VerifSetID(), n.svc.VerifRound(), stage, v.Hash)
 }
 
 // netStub implements grandpa.Network for one node.
@@ -251,6 +246,14 @@ func (n *gnode) open(fresh bool) {
 			n.has[x.Hash] = true
 		}
 	}
+	if !fresh {
+		n.restarted = true
+		for key := range n.signed {
+			if key[1] > n.excusedRound {
+				n.excusedRound = key[1]
+			}
+		}
+	}
 	n.fin = head.Hash()
 	n.phase = 0
 	n.lastEst = nil
@@ -324,6 +327,15 @@ func signVote(kp *ed25519.Keypair, stage gp.Subround, v gp.Vote, round, setID ui
 		panic(err)
 	}
 	return ed25519.NewSignatureBytes(sig)
+}
+
+// altSignVote: another valid signature of the same vote by voter key (see altsig.go).
+func altSignVote(key int, stage gp.Subround, v gp.Vote, round, setID uint64, tweak byte) [64]byte {
+	msg, err := scale.Marshal(gp.FullVote{Stage: stage, Vote: v, Round: round, SetID: setID})
+	if err != nil {
+		panic(err)
+	}
+	return altSign(edSeed(key), msg, tweak)
 }
 
 func validSig(id ed25519.PublicKeyBytes, sig [64]byte, stage gp.Subround, v gp.Vote, round, setID uint64) bool {
